@@ -18,6 +18,7 @@ META = {
     "assumptions": [],
 }
 META["explanation"] += " The dynamic limit / count input of Head, Tail and Skip is an eyeball Subscriber: its poll functions are checked with the same typestate (R02.7) and the leaf's pending => registered clause (R02.2)."
+META["explanation"] += ' The waker-list inventory (R02.3 wake all, R02.4 full drain after every version write, R02.5 only push / drain / take) is evaluated here: a registered waker stays registered until it is woken.'
 
 
 def run(ctx):
@@ -41,3 +42,11 @@ def run(ctx):
         from . import groups, leaf
         leaf.check_pending_registered(ctx, "R02.2")
         groups.eyeball_poll_typestate(ctx)
+        # ... and a registered waker stays registered until it is woken: the waker list is only pushed to (poll), drained
+        # (update) and taken (close); update and close wake all of them
+        from . import c02
+        wakes = find_wake_fn(F)
+        if len(wakes) == 1:
+            c02.r02_3(ctx, wakes[0])
+            c02.r02_4(ctx, wakes[0])
+            c02.r02_5(ctx, wakes[0])
